@@ -1,5 +1,8 @@
 use std::sync::atomic::{AtomicU32, Ordering::Relaxed};
 
+#[cfg(oxidd_verif)]
+use oxidd_core::util::verif_locks as vl;
+
 /// Worker thread pool
 pub struct Workers {
     pub(crate) pool: rayon::ThreadPool,
@@ -54,6 +57,13 @@ impl oxidd_core::WorkerPool for Workers {
 
     #[inline]
     fn install<RA: Send>(&self, op: impl FnOnce() -> RA + Send) -> RA {
+        #[cfg(oxidd_verif)]
+        let _join = vl::join_begin(vl::JoinKind::Install);
+        #[cfg(oxidd_verif)]
+        let op = || {
+            let _sub = vl::sub_scope();
+            op()
+        };
         self.pool.install(op)
     }
 
@@ -63,6 +73,19 @@ impl oxidd_core::WorkerPool for Workers {
         op_a: impl FnOnce() -> RA + Send,
         op_b: impl FnOnce() -> RB + Send,
     ) -> (RA, RB) {
+        #[cfg(oxidd_verif)]
+        let _join = vl::join_begin(vl::JoinKind::Join);
+        #[cfg(oxidd_verif)]
+        let (op_a, op_b) = (
+            || {
+                let _sub = vl::sub_scope();
+                op_a()
+            },
+            || {
+                let _sub = vl::sub_scope();
+                op_b()
+            },
+        );
         self.pool.join(op_a, op_b)
     }
 
@@ -71,7 +94,11 @@ impl oxidd_core::WorkerPool for Workers {
         &self,
         op: impl Fn(oxidd_core::BroadcastContext) -> RA + Sync,
     ) -> Vec<RA> {
+        #[cfg(oxidd_verif)]
+        let _join = vl::join_begin(vl::JoinKind::Broadcast);
         self.pool.broadcast(|ctx| {
+            #[cfg(oxidd_verif)]
+            let _sub = vl::sub_scope();
             op(oxidd_core::BroadcastContext {
                 index: ctx.index() as u32,
                 num_threads: ctx.num_threads() as u32,
